@@ -111,6 +111,7 @@ type FuncFacts struct {
 	fn      *ssa.Function
 	in      map[*ssa.BasicBlock]*factState
 	at      map[ssa.Instruction]*factState // state just before each call / return / store instruction
+	edgeIn  map[*ssa.BasicBlock][]*factState // per predecessor (same order as Preds): state carried by that edge
 	ids     map[ssa.Value]int
 	escaped map[*ssa.Alloc]bool
 	pure    func(*ssa.Function) bool
@@ -378,6 +379,11 @@ func computeFacts(fn *ssa.Function) *FuncFacts {
 							ff.escaped[a] = true
 						}
 					case *ssa.DebugRef:
+					case *ssa.MakeClosure:
+						// captured by a closure: harmless if the closure only reads it
+						if !closureOnlyReads(u, a) {
+							ff.escaped[a] = true
+						}
 					default:
 						ff.escaped[a] = true
 					}
@@ -463,6 +469,33 @@ func computeFacts(fn *ssa.Function) *FuncFacts {
 			} else {
 				ff.in[succ] = out
 				work = append(work, succ)
+			}
+		}
+	}
+	// per-edge states (after the branch assumption and phi transfer), for disjunctive queries
+	ff.edgeIn = map[*ssa.BasicBlock][]*factState{}
+	for _, b := range fn.Blocks {
+		st, ok := ff.in[b]
+		if !ok {
+			continue
+		}
+		s := st.clone()
+		for _, ins := range b.Instrs {
+			ff.step(s, ins)
+		}
+		for si, succ := range b.Succs {
+			out := s.clone()
+			if ifi, ok := b.Instrs[len(b.Instrs)-1].(*ssa.If); ok {
+				ff.assume(out, ifi.Cond, si == 0)
+			}
+			if ff.edgeIn[succ] == nil {
+				ff.edgeIn[succ] = make([]*factState, len(succ.Preds))
+			}
+			for i, p := range succ.Preds {
+				if p == b && ff.edgeIn[succ][i] == nil {
+					ff.edgeIn[succ][i] = out
+					break
+				}
 			}
 		}
 	}
@@ -586,4 +619,123 @@ func valueLabel(v ssa.Value) string {
 		return valueLabel(x.X) + ".(" + types.TypeString(x.AssertedType, func(*types.Package) string { return "" }) + ")"
 	}
 	return v.Name()
+}
+
+// factPred is a predicate over a fact state.
+type factPred func(s *factState) bool
+
+// holdsOnEveryPath reports whether pred holds in the state before ins, or —
+// when the block is a join — on every incoming edge (looking through up to
+// `depth` levels of joins). This recovers disjunctive conditions
+// (`a || b`) that a must-analysis loses at the join.
+func (ff *FuncFacts) holdsOnEveryPath(ins ssa.Instruction, pred factPred, depth int) bool {
+	s := ff.at[ins]
+	if s == nil {
+		return false
+	}
+	if pred(s) {
+		return true
+	}
+	return ff.blockEdgesHold(ins.Block(), pred, depth, map[*ssa.BasicBlock]bool{})
+}
+
+func (ff *FuncFacts) blockEdgesHold(b *ssa.BasicBlock, pred factPred, depth int, seen map[*ssa.BasicBlock]bool) bool {
+	if depth == 0 || seen[b] || len(b.Preds) == 0 {
+		return false
+	}
+	seen[b] = true
+	edges := ff.edgeIn[b]
+	if len(edges) != len(b.Preds) {
+		return false
+	}
+	for i, es := range edges {
+		if es == nil {
+			continue // edge from an unreachable block
+		}
+		if pred(es) {
+			continue
+		}
+		if !ff.blockEdgesHold(b.Preds[i], pred, depth-1, seen) {
+			return false
+		}
+	}
+	return true
+}
+
+// errStatus classifies result idx of a return as possibly nil / possibly non-nil.
+func (ff *FuncFacts) errStatus(r *ssa.Return, idx int) (mayNil, mayNonNil bool) {
+	var visit func(v ssa.Value, depth int)
+	s := ff.at[r]
+	visit = func(v ssa.Value, depth int) {
+		v = ff.resolve(r, v)
+		if isNilConst(v) {
+			mayNil = true
+			return
+		}
+		if s != nil {
+			n := ff.canon(s, v)
+			if s.facts[fact{n, fNIL, ""}] {
+				mayNil = true
+				return
+			}
+			if s.facts[fact{n, fNONNIL, ""}] {
+				mayNonNil = true
+				return
+			}
+		}
+		switch x := v.(type) {
+		case *ssa.Call:
+			switch staticName(x) {
+			case "fmt.Errorf", "errors.New":
+				mayNonNil = true
+				return
+			}
+		case *ssa.UnOp:
+			if _, ok := x.X.(*ssa.Global); ok && x.Op == token.MUL {
+				mayNonNil = true // package-level sentinel error
+				return
+			}
+		case *ssa.Phi:
+			if depth < 4 {
+				for _, e := range x.Edges {
+					visit(e, depth+1)
+				}
+				return
+			}
+		}
+		mayNil, mayNonNil = true, true
+	}
+	visit(r.Results[idx], 0)
+	return
+}
+
+// closureOnlyReads reports whether the closure mc, which captures alloc a,
+// only ever loads from it (transitively through nested closures).
+func closureOnlyReads(mc *ssa.MakeClosure, a ssa.Value) bool {
+	fn, ok := mc.Fn.(*ssa.Function)
+	if !ok {
+		return false
+	}
+	for i, b := range mc.Bindings {
+		if b != a || i >= len(fn.FreeVars) {
+			continue
+		}
+		fv := fn.FreeVars[i]
+		for _, r := range *fv.Referrers() {
+			switch u := r.(type) {
+			case *ssa.UnOp:
+				if u.Op != token.MUL {
+					return false
+				}
+			case *ssa.DebugRef:
+			case *ssa.MakeClosure:
+				if !closureOnlyReads(u, fv) {
+					return false
+				}
+			default:
+				return false
+			}
+		}
+	}
+	return true
 }
